@@ -9,7 +9,8 @@
    computation in Graph6Encode and of NewDense does not wrap (such a graph needs > 10^17 bytes);
    it covers the 1-, 4- and 8-byte size headers. *)
 From Coq Require Import List ZArith Bool.
-From Mamba Require Import Codec.Model Codec.Spec Codec.G6Header Codec.G6Proofs.
+From Mamba Require Import Codec.Model Codec.Spec Codec.G6Header Codec.G6Proofs
+  Codec.S6Decode Codec.S6Encode Codec.S6Round.
 Import ListNotations.
 Open Scope Z_scope.
 
@@ -70,3 +71,58 @@ Example C07_size_header_nonvacuous :
   dec_size true [126; 126; 63; 63; 63; 126; 63; 63] = Ok (258048, 8) /\
   enc_size 258047 = Ok [126; 125; 126; 126].
 Proof. vm_compute. repeat split; reflexivity. Qed.
+
+(* ------------------------------------------------------------------ sparse6 *)
+(* the vertices 0,1 joined to 2, and the isolated vertex 3: n = 4 is a power of two, vertex n-2
+   has an edge, n-1 has none and exactly k+1 = 3 bits of padding remain — the padding exception *)
+Definition ex_graph2 : graph :=
+  {| gn := 4; gadj := fun i j => (Nat.eqb i 2 && Nat.ltb j 2) || (Nat.eqb j 2 && Nat.ltb i 2) |}.
+
+Lemma ex_graph2_simple : simple ex_graph2.
+Proof.
+  split.
+  - intros i j. cbn [gadj ex_graph2]. apply orb_comm.
+  - intros i. cbn [gadj ex_graph2]. destruct i as [|[|[|i]]]; reflexivity.
+Qed.
+
+(* Read by the published format definition, the string Sparse6Encode returns denotes exactly g:
+   the declared n and the edges {i,u}, u < i, each once, in ascending order.  (sparse6 strings
+   are not unique; what interoperability needs is that the string is a valid sparse6 string of
+   g — in particular that the padding is never read as an edge or a loop.)  [simple g]: the
+   Graph value is symmetric and irreflexive; fewer than 10^17 edges keeps the int expression
+   (k+1)*2*m of the capacity from wrapping. *)
+Theorem C07_sparse6_format : forall g s, simple g -> Z.of_nat (gn g) <= 68719476735 ->
+  gm g < 100000000000000000 -> sparse6_encode g = Ok s ->
+  s6_spec_decode s = Some (Z.of_nat (gn g), edgesZ g).
+Proof. exact sparse6_encode_valid. Qed.
+Print Assumptions C07_sparse6_format.
+Example C07_sparse6_format_nonvacuous :
+  simple ex_graph2 /\ gm ex_graph2 < 100000000000000000 /\
+  sparse6_encode ex_graph2 = Ok [58; 67; 111; 74] (* ":CoJ", padding 0 1 1 *) /\
+  s6_spec_decode [58; 67; 111; 74] = Some (4, [(2, 0); (2, 1)]) /\
+  s6_spec_decode [58; 67; 111; 78] (* padding 1 1 1 *) = Some (4, [(2, 0); (2, 1); (3, 3)]).
+Proof. split; [exact ex_graph2_simple|]. vm_compute. repeat split; reflexivity. Qed.
+
+(* Decoding the encoding gives the graph back, with and without the optional header, for every
+   n the format can express (n = 0, 1, powers of two, edgeless graphs included). *)
+Theorem C07_sparse6_roundtrip : forall g s, simple g -> Z.of_nat (gn g) <= 68719476735 ->
+  gm g < 100000000000000000 -> sparse6_encode g = Ok s ->
+  sparse6_decode s = Ok (Z.of_nat (gn g), edgesZ g) /\
+  sparse6_decode (hdr_sparse6 ++ s) = Ok (Z.of_nat (gn g), edgesZ g).
+Proof. exact sparse6_roundtrip. Qed.
+Print Assumptions C07_sparse6_roundtrip.
+Example C07_sparse6_roundtrip_nonvacuous :
+  sparse6_decode (hdr_sparse6 ++ [58; 67; 111; 74]) = Ok (4, [(2, 0); (2, 1)]) /\
+  edgesZ ex_graph2 = [(2, 0); (2, 1)].
+Proof. vm_compute. split; reflexivity. Qed.
+
+(* The encoder does not panic in that range; the string is ':' followed by bytes in 63..126. *)
+Theorem C07_sparse6_bytes : forall g, simple g -> Z.of_nat (gn g) <= 68719476735 ->
+  gm g < 100000000000000000 ->
+  exists s, sparse6_encode g = Ok s /\ Forall (fun c => 63 <= c <= 126) (tl s) /\ hd 0 s = 58.
+Proof. exact sparse6_encode_ok. Qed.
+Print Assumptions C07_sparse6_bytes.
+
+Theorem C07_sparse6_too_large : forall g, 68719476735 < Z.of_nat (gn g) -> sparse6_encode g = Panic.
+Proof. exact sparse6_encode_panic. Qed.
+Print Assumptions C07_sparse6_too_large.
